@@ -37,9 +37,10 @@ def _paveba_family(name):
         try:
             paths = t.run(ALGOS[name], name + ".discarding", [], self_val=A.obj, setmode=True)
         except Unsupported as ex_:
-            # the body left the set-level subset: bounded structural check instead (labelled bounded), and the task stays undecided
+            # the body left the set-level subset: the bounded structural check stands in (labelled bounded, not a proof)
             bounded()
-            raise
+            t.fallback(str(ex_))
+            return
         t.must_fail()
         t.cover("two-active-designs", [z3.Select(A.S0, 0), z3.Select(A.S0, 1), A.N >= 2])
         t.no_raise(paths)
@@ -65,9 +66,10 @@ def _pess_set(name):
                                               result=lambda e: ps_spec(A, e))
         try:
             paths = t.run(ALGOS[name], name + ".compute_pessimistic_set", [], self_val=A.obj, setmode=True)
-        except Unsupported:
+        except Unsupported as ex_:
             bounded()
-            raise
+            t.fallback(str(ex_))
+            return
         t.must_fail()
         t.no_raise(paths)
 
@@ -116,9 +118,10 @@ def _vogp_family(name, slack_of):
                                 without_contracts=[ALGOS[name] + "::" + name + ".compute_pessimistic_set"])
         try:
             paths = t.run(ALGOS[name], name + ".discarding", [], self_val=A.obj, setmode=True)
-        except Unsupported:
+        except Unsupported as ex_:
             bounded()
-            raise
+            t.fallback(str(ex_))
+            return
         t.must_fail()
         t.no_raise(paths)
         t.prove("pessimistic_set_computed_once", z3.BoolVal(len(PSs) == 1))
